@@ -81,6 +81,45 @@ def admissible (union : Bool) (n nstep : Nat) : List (List Nat) → State → Bo
 def toPath {κ ν} [BEq κ] (arr : List (κ × ν)) (path : List κ) : List (Option ν) :=
   path.map (fun k => (arr.find? (fun p => p.1 == k)).map (·.2))
 
+/-! repeated run() calls with the SAME Path object.  `self_to_path(path)` reads `path.get_kpoints()` and the collected
+    k-points of this result only; a Path object carries no state between calls.  The seeded defect T-C12 kept the
+    mapping "path position → position in the collected result" on the Path object and reused it in the next call. -/
+
+/-- `mapping = np.argmin(norm, axis=0)`: for every path point the position of the first matching arrival -/
+def mappingOf {κ ν} [BEq κ] (arr : List (κ × ν)) (path : List κ) : List (Option Nat) :=
+  path.map (fun k => arr.findIdx? (fun p => p.1 == k))
+
+/-- `results[r].to_path(mapping)` -/
+def applyMapping {ν κ} (arr : List (κ × ν)) (m : List (Option Nat)) : List (Option ν) :=
+  m.map (fun o => o.bind (fun i => (arr[i]?).map (·.2)))
+
+/-- the Path object: its k-points, and (only in the seeded variant) a mapping remembered from an earlier call -/
+structure PathObj (κ : Type) where
+  pts : List κ
+  cache : Option (List (Option Nat))
+
+/-- one call of `self_to_path`.  `useCache = false` is the code; `true` the seeded variant (reuse the remembered
+    mapping whenever the lengths fit).  Returns the Path object afterwards and the reordered values. -/
+def selfToPath {κ ν} [BEq κ] (useCache : Bool) (po : PathObj κ) (arr : List (κ × ν)) :
+    PathObj κ × List (Option ν) :=
+  match useCache, po.cache with
+  | true, some m =>
+    if m.length == po.pts.length && arr.length == po.pts.length then (po, applyMapping arr m)
+    else
+      let m' := mappingOf arr po.pts
+      ({ po with cache := some m' }, applyMapping arr m')
+  | true, none =>
+    let m' := mappingOf arr po.pts
+    ({ po with cache := some m' }, applyMapping arr m')
+  | false, _ => (po, applyMapping arr (mappingOf arr po.pts))
+
+/-- several run() calls, one after the other, on one Path object; each call with its own arrival order -/
+def runsOnPath {κ ν} [BEq κ] (useCache : Bool) : PathObj κ → List (List (κ × ν)) → List (List (Option ν))
+  | _, [] => []
+  | po, arr :: rest =>
+    let r := selfToPath useCache po arr
+    r.2 :: runsOnPath useCache r.1 rest
+
 /-- `TABresult.to_grid` + `K__Result.to_grid` for one grid point `g`:
     `k_map[g]` = arrivals that sit on `g`, value = their mean.  -/
 def onGrid {κ ν} [BEq κ] (arr : List (κ × ν)) (g : κ) : List ν :=
@@ -119,6 +158,13 @@ def handle : List String → String
     match parseInts? keys, parseRats? vals, parseInts? path with
     | some ks, some vs, some p => if ks.length ≠ vs.length then "bad-op" else showOptRats (toPath (pairUp ks vs) p)
     | _, _, _ => "bad-op"
+  | ["topath2", keys1, vals1, keys2, vals2, path] =>
+    -- two consecutive calls on one Path object
+    match parseInts? keys1, parseRats? vals1, parseInts? keys2, parseRats? vals2, parseInts? path with
+    | some k1, some v1, some k2, some v2, some p =>
+      if k1.length ≠ v1.length || k2.length ≠ v2.length then "bad-op" else
+      " ".intercalate ((runsOnPath false { pts := p, cache := none } [pairUp k1 v1, pairUp k2 v2]).map showOptRats)
+    | _, _, _, _, _ => "bad-op"
   | ["togrid", keys, vals, grid] =>
     match parseInts? keys, parseRats? vals, parseInts? grid with
     | some ks, some vs, some g => if ks.length ≠ vs.length then "bad-op" else showRats (toGrid (pairUp ks vs) g)
